@@ -6,6 +6,8 @@ Nothing in the *oracle* half (`oracle_*`, `ty_to_proto`, `proto_to_ty`) touches 
 """
 from __future__ import annotations
 
+import collections
+import copy
 import dataclasses
 import hashlib
 import importlib
@@ -2132,6 +2134,84 @@ def gen_flow(rng, module: str) -> Optional[dict]:
         for c in calls:
             c["vp"] = vp
     return {"vars": vars_, "calls": calls, "shared": shared, "kind": kind}
+
+
+_XMOD_PAIRS: list = []
+
+
+def xmodule_pairs() -> list:
+    """(newer Op, older Op, grown element types, shrunk element types) for every operator that two shipped
+    modules of one domain implement with DIFFERENT schema versions whose type-constraint sets (inputs or
+    outputs) differ - derived from onnx.defs only. Same formal inputs required (the identical call must be
+    expressible in both modules)."""
+    if _XMOD_PAIRS:
+        return _XMOD_PAIRS
+    byname: dict = collections.defaultdict(list)
+    for o in load_vocabulary():
+        if o.name in BODY_OPS or is_supplemented(o):
+            continue
+        byname[(o.domain, o.name)].append(o)
+
+    def elems(sch):
+        out = set()
+        for c in sch.type_constraints:
+            for t in c.allowed_type_strs:
+                p = parse_type_str(t)
+                while p and p[0] != "tensor":
+                    p = p[1]
+                if p and p[1] in GEN_ELEMS:
+                    out.add(p[1])
+        return out
+
+    for (_, _), lst in sorted(byname.items()):
+        seen = {}
+        for o in lst:  # one representative module per schema version (the first that ships it)
+            seen.setdefault(o.schema().since_version, o)
+        vers = sorted(seen)
+        for i, a in enumerate(vers):
+            for b in vers[i + 1:]:
+                old, new = seen[a], seen[b]
+                so, sn = old.schema(), new.schema()
+                if [x.name for x in so.inputs] != [x.name for x in sn.inputs] or len(so.outputs) != len(sn.outputs):
+                    continue
+                eo, en = elems(so), elems(sn)
+                if eo != en:
+                    _XMOD_PAIRS.append((new, old, sorted(en - eo), sorted(eo - en)))
+    return _XMOD_PAIRS
+
+
+def gen_xmodule_flow(rng) -> Optional[dict]:
+    """The IDENTICAL call (same Vars, attributes, constants, output count) made through two modules that
+    implement the operator with different schema versions, in one process: newer first (70 %) or older
+    first. Preferably with an element type only one of the two versions accepts. Each call is judged on its
+    own against strict inference at ITS module's opset."""
+    pairs = xmodule_pairs()
+    if not pairs:
+        return None
+    new, old, grown, shrunk = rng.choice(pairs)
+    old_attrs = set(old.schema().attributes)
+    for _ in range(6):
+        c = gen_call(rng, new, force="plain")
+        if "skip" in c or not set(c.get("attrs") or {}) <= old_attrs or c.get("sub"):
+            continue
+        only = grown if (grown and (not shrunk or rng.random() < 0.8)) else shrunk
+        if only and rng.random() < 0.85:
+            # rebind the call's dominant element type to one that only one version accepts
+            typed = [v for v in c["vars"] if v.get("ty") and "t" in v["ty"] and v.get("const") is None]
+            if typed:
+                dom = collections.Counter(v["ty"]["t"] for v in typed).most_common(1)[0][0]
+                g = rng.choice(only)
+                for v in typed:
+                    if v["ty"]["t"] == dom:
+                        v["ty"]["t"] = g
+        c["family"] = "flow"
+        c_new = {k: v for k, v in c.items() if k != "vars"}
+        c_old = dict(copy.deepcopy(c_new), module=old.module)
+        calls = [c_new, c_old] if rng.random() < 0.7 else [c_old, c_new]
+        if rng.random() < 0.25:  # A B A: the first module asked again after the other one
+            calls.append(copy.deepcopy(calls[0]))
+        return {"vars": c["vars"], "calls": calls, "shared": 0, "kind": "cross-module"}
+    return None
 
 
 def run_flow(ops_by_key: dict, flow: dict) -> list:
